@@ -599,11 +599,17 @@ theorem ssBody_pos {m : Nat} {c : SSCfg α} (hup : ∀ n, 0 < c.alphaUp n)
     exact mul_pos (hpos i) (ssAlpha_pos c hup hdn _ _)
   · exact hpos i
 
-/-- With a cap, entries never exceed `max(initial bound, cap)`. -/
+theorem ssAllowed_of_le_one {m : Nat} (c : SSCfg α) {a : α} (vals : Vector α m) (h : a ≤ 1) :
+    ssAllowed c a vals = true := by
+  unfold ssAllowed; simp [h]
+
+/-- With a cap, (positive) entries never exceed `max(initial bound, cap)`: a factor `≤ 1`
+    cannot raise them, a widening one is applied only if the result stays within the cap. -/
 theorem ssBody_le {m : Nat} {c : SSCfg α} {cap : α} (hcap : c.cap = some cap)
     (hup : ∀ n, 0 < c.alphaUp n) (hdn : ∀ n, 0 < c.alphaDown n)
     {acc : Bool} {dk : Int} {s s' : SSSt α m}
-    (h : ssBody c acc dk s = some s') {B : α} (hB : cap ≤ B) (hle : ∀ i : Fin m, s.vals[i] ≤ B) :
+    (h : ssBody c acc dk s = some s') {B : α} (hB : cap ≤ B) (hpos : ∀ i : Fin m, 0 < s.vals[i])
+    (hle : ∀ i : Fin m, s.vals[i] ≤ B) :
     ∀ i : Fin m, s'.vals[i] ≤ B := by
   obtain ⟨_, _, hv⟩ := ssBody_eq_some h
   intro i
@@ -611,18 +617,23 @@ theorem ssBody_le {m : Nat} {c : SSCfg α} {cap : α} (hcap : c.cap = some cap)
   split_ifs with hal
   · simp only [Fin.getElem_fin, Vector.getElem_map]
     have ha := ssAlpha_pos c hup hdn s'.nAcc (dk + 1).toNat
-    unfold ssAllowed at hal
-    rw [hcap] at hal
-    cases hmx : vmax s.vals with
-    | none => exact absurd (vmax_none hmx) (by have := i.2; omega)
-    | some mx =>
-      simp only [hmx, decide_eq_true_eq] at hal
-      have h1 : s.vals[(i : Nat)] ≤ mx := vmax_ge hmx i
-      calc s.vals[(i : Nat)] * ssAlpha c s'.nAcc (dk + 1).toNat
-          ≤ mx * ssAlpha c s'.nAcc (dk + 1).toNat := mul_le_mul_of_nonneg_right h1 ha.le
-        _ = ssAlpha c s'.nAcc (dk + 1).toNat * mx := mul_comm _ _
-        _ ≤ cap := hal
-        _ ≤ B := hB
+    by_cases h1' : ssAlpha c s'.nAcc (dk + 1).toNat ≤ 1
+    · have := hle i
+      have hp := hpos i
+      simp only [Fin.getElem_fin] at this hp
+      nlinarith
+    · unfold ssAllowed at hal
+      rw [hcap] at hal
+      cases hmx : vmax s.vals with
+      | none => exact absurd (vmax_none hmx) (by have := i.2; omega)
+      | some mx =>
+        simp only [hmx, h1', decide_false, Bool.false_or, decide_eq_true_eq] at hal
+        have h1 : s.vals[(i : Nat)] ≤ mx := vmax_ge hmx i
+        calc s.vals[(i : Nat)] * ssAlpha c s'.nAcc (dk + 1).toNat
+            ≤ mx * ssAlpha c s'.nAcc (dk + 1).toNat := mul_le_mul_of_nonneg_right h1 ha.le
+          _ = ssAlpha c s'.nAcc (dk + 1).toNat * mx := mul_comm _ _
+          _ ≤ cap := hal
+          _ ≤ B := hB
   · exact hle i
 
 /-! ### Andrieu–Thoms -/
@@ -750,7 +761,7 @@ theorem vmfLogKappa_up {g xi l ar : α} (hg : 0 < g) (h : ar < xi) : l < vmfLogK
 
 theorem vmfBody_eq_some {c : ATCfg α} {i : VmfIn α} {dk : Int} {s s' : VmfSt α}
     (h : vmfBody c i dk s = some s') :
-    0 < i.ek ∧ 0 < i.nm ∧ s'.kappa = i.ek ∧ s'.norm = i.nm ∧
+    0 < i.ek ∧ 0 ≤ i.nm ∧ s'.kappa = i.ek ∧ s'.norm = i.nm ∧
     s'.logKappa = vmfLogKappa (c.gain dk) c.xi s.logKappa i.ar := by
   unfold vmfBody at h
   split_ifs at h with h1 h2
@@ -887,6 +898,85 @@ theorem sum_gainAT_ge (T : ℕ) (hT : 2 ≤ T) :
   have h4 : 0 ≤ (T : ℝ) ^ (-(0.6 : ℝ)) := Real.rpow_nonneg hT0.le _
   have h5 := mul_le_mul_of_nonneg_right (card_Ioo_le T) h4
   linarith
+
+/-- Bernoulli the other way: `0.4 x^-0.6 ≤ x^0.4 - (x-1)^0.4`. -/
+theorem rpow_step_back (x : ℝ) (hx : 1 ≤ x) :
+    0.4 * x ^ (-(0.6 : ℝ)) ≤ x ^ (0.4 : ℝ) - (x - 1) ^ (0.4 : ℝ) := by
+  have hx0 : 0 < x := by linarith
+  have h1 : (x - 1) = x * (1 + -(1 / x)) := by field_simp; ring
+  have hinv : (1 : ℝ) / x ≤ 1 := by rw [div_le_one hx0]; exact hx
+  have hb := rpow_one_add_le_one_add_mul_self (s := -(1 / x)) (by linarith) (p := 0.4)
+    (by norm_num) (by norm_num)
+  have hxp : 0 < x ^ (0.4 : ℝ) := Real.rpow_pos_of_pos hx0 _
+  have h2 : (x - 1) ^ (0.4 : ℝ) = x ^ (0.4 : ℝ) * (1 + -(1 / x)) ^ (0.4 : ℝ) := by
+    rw [h1, Real.mul_rpow hx0.le (by linarith)]
+  have h3 : x ^ (-(0.6 : ℝ)) = x ^ (0.4 : ℝ) / x := by
+    have : (-(0.6 : ℝ)) = 0.4 - 1 := by norm_num
+    rw [this, Real.rpow_sub_one hx0.ne']
+  rw [h2, h3]
+  have : x ^ (0.4 : ℝ) * (1 + -(1 / x)) ^ (0.4 : ℝ) ≤ x ^ (0.4 : ℝ) * (1 + 0.4 * -(1 / x)) :=
+    mul_le_mul_of_nonneg_left hb hxp.le
+  have e : x ^ (0.4 : ℝ) * (1 + 0.4 * -(1 / x)) = x ^ (0.4 : ℝ) - 0.4 * (x ^ (0.4 : ℝ) / x) := by
+    field_simp; ring
+  linarith
+
+theorem sum_rpow_le (T : ℕ) (hT : 2 ≤ T) :
+    ∑ d ∈ Finset.Ioo (1 : ℤ) (T : ℤ), (d : ℝ) ^ (-(0.6 : ℝ))
+      ≤ 2.5 * (((T : ℝ) - 1) ^ (0.4 : ℝ) - 1) := by
+  induction T, hT using Nat.le_induction with
+  | base =>
+    have : Finset.Ioo (1 : ℤ) ((2 : ℕ) : ℤ) = ∅ := by
+      ext d; simp only [Finset.mem_Ioo, Finset.notMem_empty, iff_false]; push_cast; omega
+    rw [this]; norm_num
+  | succ T hT ih =>
+    rw [Ioo_succ T hT, Finset.sum_insert (by simp)]
+    have hx : (1 : ℝ) ≤ T := by exact_mod_cast (by omega : 1 ≤ T)
+    have := rpow_step_back T hx
+    push_cast at this ⊢
+    have e : (T : ℝ) + 1 - 1 = T := by ring
+    rw [e]
+    linarith
+
+/-- The gains of a whole window add up to at most `2.5 T^0.4`. -/
+theorem sum_gainAT_le (T : ℕ) (hT : 2 ≤ T) :
+    ∑ d ∈ Finset.Ioo (1 : ℤ) (T : ℤ), gainAT T d ≤ 2.5 * (T : ℝ) ^ (0.4 : ℝ) := by
+  have h1 := sum_rpow_le T hT
+  have hT1 : (0 : ℝ) ≤ (T : ℝ) - 1 := by
+    have : (2 : ℝ) ≤ T := by exact_mod_cast hT
+    linarith
+  have h2 : ((T : ℝ) - 1) ^ (0.4 : ℝ) ≤ (T : ℝ) ^ (0.4 : ℝ) :=
+    Real.rpow_le_rpow hT1 (by linarith) (by norm_num)
+  have h3 : ∑ d ∈ Finset.Ioo (1 : ℤ) (T : ℤ), gainAT T d
+      ≤ ∑ d ∈ Finset.Ioo (1 : ℤ) (T : ℤ), (d : ℝ) ^ (-(0.6 : ℝ)) := by
+    apply Finset.sum_le_sum
+    intro d _
+    unfold gainAT
+    have := Real.rpow_nonneg (Nat.cast_nonneg T) (-(0.6 : ℝ))
+    linarith
+  linarith
+
+theorem rpow_le_of_1e6 (T : ℕ) (hT : T ≤ 1000000) : (T : ℝ) ^ (0.4 : ℝ) ≤ 252 := by
+  by_contra h
+  replace h := not_le.mp h
+  have hT0 : (0 : ℝ) ≤ T := Nat.cast_nonneg T
+  have h5 : ((T : ℝ) ^ (0.4 : ℝ)) ^ (5 : ℕ) = (T : ℝ) ^ 2 := by
+    rw [← Real.rpow_natCast, ← Real.rpow_mul hT0]
+    norm_num
+  have := pow_lt_pow_left₀ h (by norm_num) (by norm_num : (5 : ℕ) ≠ 0)
+  rw [h5] at this
+  have hT' : (T : ℝ) ≤ 1000000 := by exact_mod_cast hT
+  nlinarith
+
+theorem log_five_bounds : 1 < Real.log 5 ∧ Real.log 5 < 2 := by
+  constructor
+  · rw [Real.lt_log_iff_exp_lt (by norm_num)]
+    have := Real.exp_one_lt_d9
+    linarith
+  · rw [Real.log_lt_iff_lt_exp (by norm_num)]
+    have h := Real.exp_one_gt_d9
+    have e : Real.exp 2 = Real.exp 1 ^ 2 := by rw [← Real.exp_nat_mul]; norm_num
+    rw [e]
+    nlinarith
 
 theorem rpow_ge_of_1200 (T : ℕ) (hT : 1200 ≤ T) : (16.5 : ℝ) ≤ (T : ℝ) ^ (0.4 : ℝ) := by
   by_contra h
